@@ -81,8 +81,10 @@ def split_known(ctx, traces):
 
 
 def check(ctx):
-    vlib.translate(ctx, [("status_writes", "StatusWrites.lean")])
-    vlib.prove(ctx, ["KrillModel.Props.C19"])
+    # status_writes: table of every status-store call of manager.rs; pure_fns:C19: the BODIES of the nine status setters of
+    # src/api/ca.rs regenerated as Lean definitions, proved equal to the model's setters in Props/C19Src.lean
+    vlib.translate(ctx, [("status_writes", "StatusWrites.lean"), ("pure_fns:C19", "PureFnsC19.lean")])
+    vlib.prove(ctx, ["KrillModel.Props.C19", "KrillModel.Props.C19Src"])
     found = False
     reported_before = len(ctx.violations)
     if vlib.build_harness(ctx, [HARNESS]):
@@ -165,5 +167,5 @@ MANIFEST = {
     "note": "Kernel-checked theorems are about the model. The tie is seeded differential execution plus hand-written scenarios for "
             "every refused-exchange kind; exchanges inside background task runs are taken from the observation and only their "
             "consequences are checked. Remote parents / remote publication servers are modelled but cannot be reached by the harness.",
-    "technique": "Lean 4 proof (induction over histories, projection lemmas) + correspondence check + oracle on the implementation's trace + source translator",
+    "technique": "Lean 4 proof (induction over histories, projection lemmas) + correspondence check + oracle on the implementation's trace + source translators (table of the status-store calls of manager.rs; bodies of the nine status setters of api/ca.rs - RepoStatus::update_published / set_failure / set_last_updated, ParentStatus::set_entitlements / set_failure / set_last_updated, ChildStatus::set_success / set_failure / set_suspended - regenerated as Lean definitions and proved equal to the model, Props/C19Src.lean)",
 }
